@@ -293,11 +293,24 @@ def h_elementwise(a, inst):
     elif inst["op"] == "pluck":
         vals = [{"k": x} for x in xs]
     src = sch.create_hot_observable(messages(vals, a.g, a.term, a.tg))
-    op = build(a.p, a.m)
+    pp = _conc_p(a.p) if inst["op"] in CONCRETE_P else a.p
+    op = build(pp, a.m)
     res = sch.start(lambda: src.pipe(op))
     got = rec_tuples(res.messages)
-    exp = ref(xs, ts, a.term, tt, a.p, a.m)
+    exp = ref(xs, ts, a.term, tt, pp, a.m)
     return _check_events(got, exp)
+
+
+# counts that may reach C-level containers (e.g. deque(maxlen=count)) are realised by branching: a symbolic int there is an engine
+# artefact (TypeError inside CrossHair only), not a verdict
+CONCRETE_P = {"take_last", "skip_last", "take_last_buffer"}
+
+
+def _conc_p(x):
+    for c in range(-1, 6):
+        if x == c:
+            return c
+    return x
 
 
 # ----------------------------------------------------------------- falsy values through the value-agnostic ones
@@ -327,10 +340,11 @@ def h_falsy(a, inst):
             if x is None:
                 return True
     dv = falsy(a.d)
-    op = build(dv if inst["op"] in ("default_if_empty", "start_with") else a.p, dv)
+    pp = _conc_p(a.p) if inst["op"] in CONCRETE_P else a.p
+    op = build(dv if inst["op"] in ("default_if_empty", "start_with") else pp, dv)
     res = sch.start(lambda: src.pipe(op))
     got = rec_tuples(res.messages)
-    exp = ref(xs, ts, a.term, tt, dv if inst["op"] in ("default_if_empty", "start_with") else a.p, dv)
+    exp = ref(xs, ts, a.term, tt, dv if inst["op"] in ("default_if_empty", "start_with") else pp, dv)
     return _check_events(got, exp)
 
 
